@@ -191,3 +191,22 @@ def _head_can_end(toks, i):
     if is_comment(toks[i + 1]):
         return False
     return (k == "kw" and t in DEF_START) or k == "at"
+
+
+def spans(src):
+    """like tokens() but with offsets: [(kind, text, nl, start, end)]"""
+    out = []
+    nl = 0
+    for m in _TOKEN.finditer(src):
+        k = m.lastgroup
+        if k == "ws":
+            continue
+        if k == "nl":
+            nl += 1
+            continue
+        t = m.group()
+        if k == "ident":
+            k = "kw" if t in KEYWORDS else "up" if t[0].isupper() else "discard" if t[0] == "_" else "name"
+        out.append((k, t, min(nl, 2), m.start(), m.end()))
+        nl = 0
+    return out
